@@ -37,7 +37,8 @@ fn main() {
   let mut all: Vec<Obs> = Vec::new();
   // rounds: "same" = all threads ask the same depth at once; "mixed" = threads ask different (overlapping) depths at once
   let mut rounds: Vec<Vec<u8>> = Vec::new(); // per round: depth asked by each thread
-  let (same_part, mixed_part): (Vec<u8>, Vec<u8>) = match mode.as_str() { "same" => (depths.clone(), vec![]), "mixed" => (vec![], depths.clone()), _ => { let h = depths.len() / 2; (depths[..h].to_vec(), depths[h..].to_vec()) } };
+  let stagger = mode == "stagger" || (mode == "both" && seed % 2 == 0);
+  let (same_part, mixed_part): (Vec<u8>, Vec<u8>) = match mode.as_str() { "same" | "stagger" => (depths.clone(), vec![]), "mixed" => (vec![], depths.clone()), _ => { let h = depths.len() / 2; (depths[..h].to_vec(), depths[h..].to_vec()) } };
   for &d in same_part.iter() { rounds.push(vec![d; threads]); }
   let mut k = seed as usize;
   for chunk in mixed_part.chunks(2.max(threads / 2)) { rounds.push((0..threads).map(|t| { k = k.wrapping_mul(6364136223846793005).wrapping_add(1442695040888963407); chunk[(t + (k >> 33)) % chunk.len()] }).collect()); }
@@ -47,6 +48,10 @@ fn main() {
       let b = barrier.clone(); let depth = asked[t];
       std::thread::spawn(move || {
         b.wait();
+        // staggered arrival (no synchronisation): some threads arrive while / after another one initialises the depth
+        if stagger { let mut x = (t as u64 + 1).wrapping_mul(seed | 1); for _ in 0..((t * 37 + depth as usize * 11) % 200) * 20 { x = x.wrapping_mul(6364136223846793005).wrapping_add(1); std::hint::black_box(x); } }
+        // half of the threads touch the cell-size constants table first (the second lazily initialised table)
+        if t % 2 == 1 && depth > 0 { std::hint::black_box(cdshealpix::largest_center_to_vertex_distance(depth, 0.1, 0.2)); }
         let enter = stamp();
         let layer: &'static Layer = nested::get_or_create(depth);
         let got = stamp();
